@@ -134,6 +134,17 @@ Section ChecksP.
       + apply existsb_exists in H as [[c d] [Hin H]]. cbn in H. apply andb_true_iff in H as [H1 H2].
         apply eqb_eq in H1. subst. eapply rt_trans; [apply rt_step; exact Hin | now apply IH].
   Qed.
+
+  (* a closed set that contains a contains everything reachable from a (no law of eqb needed) *)
+  Theorem closed_setb_sound r S : closed_setb eqb r S = true ->
+    forall a b, clos_refl_trans C (edge r) a b -> memb eqb a S = true -> memb eqb b S = true.
+  Proof.
+    intros H a b P. induction P as [a b E | a | a m b _ IH1 _ IH2]; intros Ha.
+    - unfold closed_setb in H. rewrite forallb_forall in H. specialize (H (a, b) E). cbn in H.
+      rewrite Ha in H. exact H.
+    - exact Ha.
+    - auto.
+  Qed.
 End ChecksP.
 
 (* ------------------------------------------------------------------------------------ *)
